@@ -22,6 +22,13 @@ def c_no_peers(out):
     return map_tokens(out, lambda t: re.sub(r"peers=\[[^\]]*\]", "peers=[]", t) if t.startswith("peers=") else t)
 
 
+def c_no_peers_late(out):
+    """peers vanish only in the second half of the run (oracles that first wait for a mesh to form)"""
+    toks = out.split()
+    half = len(toks) // 2
+    return " ".join((re.sub(r"peers=\[[^\]]*\]", "peers=[]", t) if (i >= half and t.startswith("peers=")) else t) for i, t in enumerate(toks))
+
+
 def c_no_routes(out):
     return map_tokens(out, lambda t: re.sub(r"claims=\[[^\]]*\];cache=\[[^\]]*\]", "claims=[];cache=[]", t) if t.startswith("peers=") else t)
 
@@ -70,6 +77,15 @@ def c_flip_ok(out):
     return map_tokens(out, f)
 
 
+def c_dup_seal(out):
+    """a seal log in which the last (key, nonce) pair occurs twice"""
+    def f(t):
+        if t.startswith("z") and "/" in t:
+            return t + "," + t[1:].split(",")[-1]
+        return t
+    return map_tokens(out, f)
+
+
 def c_whole_err(out):
     return "err"
 
@@ -81,9 +97,9 @@ def c_panic(out):
     return " ".join(toks)
 
 
-CORRUPTIONS = [("no-peers", c_no_peers), ("no-routes", c_no_routes), ("stale-route", c_stale_routes), ("no-emissions", c_no_emissions),
+CORRUPTIONS = [("no-peers", c_no_peers), ("no-peers-late", c_no_peers_late), ("no-routes", c_no_routes), ("stale-route", c_stale_routes), ("no-emissions", c_no_emissions),
                ("extra-emission", c_extra_emission), ("no-writes", c_no_writes), ("extra-write", c_extra_write),
-               ("err->fatal", c_err_to_fatal), ("flip-results", c_flip_ok), ("whole-err", c_whole_err), ("panic", c_panic)]
+               ("err->fatal", c_err_to_fatal), ("dup-seal", c_dup_seal), ("flip-results", c_flip_ok), ("whole-err", c_whole_err), ("panic", c_panic)]
 
 
 def audit(pid, per_family=25):
